@@ -15,11 +15,13 @@ import (
 	"encoding/pem"
 	"fmt"
 	"math/big"
+	"net/http"
 	"net/http/httptest"
 	"os"
 	"path/filepath"
 	"sort"
 	"strings"
+	"sync"
 	"time"
 
 	"github.com/golang-jwt/jwt/v5"
@@ -209,6 +211,71 @@ func RunRouter(env *Env, prefix, in, out string) error {
 				seq++
 				emit(map[string]any{
 					"trace": c.ID, "seq": seq, "action": "probe", "method": ri.Method, "route": ri.Path, "tok": k,
+					"status": status, "oneJson": oneJSON, "effects": effects,
+				})
+			}
+		}
+		// the same unacceptable credential presented by many requests at the same moment (a verification result that is
+		// remembered or shared between requests must not open the door to the ones that arrive meanwhile)
+		for _, ri := range router.Routes() {
+			path := ri.Path
+			path = strings.ReplaceAll(path, ":ChargingDataRef", ref)
+			path = strings.ReplaceAll(path, ":rechargingInfo", supi+"_1")
+			path = strings.ReplaceAll(path, ":OfflineChargingDataRef", "x")
+			path = strings.ReplaceAll(path, ":subscriptionId", "x")
+			for _, k := range []string{"absent", "garbage", "foreignkey"} {
+				const n = 16
+				before := snapshot()
+				recs := make([]*httptest.ResponseRecorder, n)
+				start := make(chan struct{})
+				var wg sync.WaitGroup
+				for i := 0; i < n; i++ {
+					recs[i] = httptest.NewRecorder()
+					var rb []byte
+					if ri.Method == "POST" || ri.Method == "PUT" {
+						rb = []byte(upd)
+					}
+					req := httptest.NewRequest(ri.Method, path, bytes.NewReader(rb))
+					req.Header.Set("Content-Type", "application/json")
+					if tokens[k] != "" {
+						req.Header.Set("Authorization", tokens[k])
+					}
+					wg.Add(1)
+					go func(rec *httptest.ResponseRecorder, req *http.Request) {
+						defer wg.Done()
+						<-start
+						router.ServeHTTP(rec, req)
+					}(recs[i], req)
+				}
+				close(start)
+				fin := make(chan struct{})
+				go func() { wg.Wait(); close(fin) }()
+				status, oneJSON := 401, true
+				select {
+				case <-fin:
+					for _, rec := range recs {
+						if rec.Code != 401 {
+							status = rec.Code
+						}
+						dec := json.NewDecoder(bytes.NewReader(rec.Body.Bytes()))
+						var v, v2 any
+						if dec.Decode(&v) != nil || dec.Decode(&v2) == nil {
+							oneJSON = false
+						}
+					}
+				case <-time.After(30 * time.Second):
+					status = -1
+				}
+				effects := []string{}
+				if snapshot() != before {
+					effects = append(effects, "state")
+				}
+				if len(env.TakeNotifs()) > 0 {
+					effects = append(effects, "notification")
+				}
+				seq++
+				emit(map[string]any{
+					"trace": c.ID, "seq": seq, "action": "probe", "method": ri.Method, "route": ri.Path, "tok": k, "burst": n,
 					"status": status, "oneJson": oneJSON, "effects": effects,
 				})
 			}
